@@ -698,6 +698,12 @@ class Scenario:
                 if not c.client_open or not c.server_open:
                     if not wr.get("answered"):
                         self.fallback_allowed = True
+        # ... as does a subscribe() call that ran into a connection loss before its request was written
+        for sc_ in self.calls:
+            if sc_["op"] == "subscribe":
+                t_end = sc_["t1"] if sc_["t1"] is not None else now
+                if any(c.t_client_closed is not None and sc_["t0"] - TOL <= c.t_client_closed <= t_end + TOL for c in self.w.net.conns):
+                    self.fallback_allowed = True
         if not desired:
             return
         if not conn.client_open or not conn.server_open or getattr(sess, "closed", False):
@@ -905,15 +911,16 @@ class Scenario:
             if prev_gap is not None and gap < prev_gap - TOL and gap < 60.0 - TOL:
                 ctx.violate("C10.backoff", "not-growing", f"untriggered retry gaps shrink: {prev_gap:.3f}s then {gap:.3f}s")
             prev_gap = gap
-        # 3: no busy loop - untriggered attempts per 10 s window
-        starts = [a["t0"] for a in at]
+        # 3: no busy loop - attempts that follow a FAILED attempt, per 10 s window (the immediate
+        # reconnect after losing an established connection is by design and not counted)
+        starts = [a["t0"] for i, a in enumerate(at) if i > 0 and at[i - 1]["outcome"] not in ("ok", "cancelled", None)]
         limit = (n_hosts + 1) + math.ceil(10 / 0.75) + 2 * sum(1 for t in trig_times)
         j = 0
         for i, t in enumerate(starts):
             while starts[j] < t - 10.0:
                 j += 1
             if i - j + 1 > limit:
-                ctx.violate("C10.busy-loop", "attempt-rate", f"{i - j + 1} attempts within 10 s ending t={t:.3f} (limit {limit})")
+                ctx.violate("C10.busy-loop", "attempt-rate", f"{i - j + 1} retries after failed attempts within 10 s ending t={t:.3f} (limit {limit})")
                 break
         # connection lost after success -> a new attempt follows (while open)
         for k, m in enumerate(self.secure_marks):
@@ -930,7 +937,7 @@ class Scenario:
         # bounded liveness after heal
         if self.healed_at is not None and self.shutdown_at is None and not self._closed_between(self.healed_at - 1e9, end) and not self.plan.get("no_liveness"):
             stopped_by_auth = bool(at) and at[-1]["outcome"] in auth_stop
-            if end - self.healed_at >= 75.0 and not stopped_by_auth and at:
+            if end - self.healed_at >= 140.0 and not stopped_by_auth and at:
                 ctx.obligations += 1
                 if not w.pairing.connection.is_connected:
                     last = at[-1] if at else None
